@@ -123,7 +123,8 @@ def stepFull (t : Toggles) (d : DS) (toks : List String) : DS × String :=
     | none => (d, "bad-op")
     | some ks =>
       match (round t d.prog ks).run { d.st with log := [] } with
-      | .ok (vs, st) => ({ d with st := st }, " ".intercalate (vs.map toString) ++ " |" ++ execsStr d.unordered st.log)
+      | .ok (vs, st) => ({ d with st := st }, " ".intercalate (vs.map toString) ++ " |" ++ execsStr d.unordered st.log
+          ++ (if st.choicePoints > 0 then " ~" else ""))
       | .error e => (d, showErr e)
   | _ => (d, "bad-op")
 
@@ -171,5 +172,5 @@ partial def loop (h : IO.FS.Stream) (out : IO.FS.Stream) (core : Bool) (t : Togg
   loop h out core t d'
 
 def main (args : List String) : IO Unit := do
-  let t : Toggles := { f1 := args.contains "f1", f2 := args.contains "f2", f3 := args.contains "f3", f14 := args.contains "f14" }
+  let t : Toggles := { f1 := args.contains "f1", f2 := args.contains "f2", f3 := args.contains "f3", f14 := args.contains "f14", desc := args.contains "desc" }
   loop (← IO.getStdin) (← IO.getStdout) (args.contains "core") t {}
